@@ -74,7 +74,36 @@ func entryPoints() []entryPoint {
 			if err := c.UnmarshalCBOR(b); err != nil {
 				return nil, err
 			}
-			return nil, nil // a zero-value receiver is not a supported way to obtain usable claims; only the decode itself is covered
+			return nil, nil // a zero-value receiver (no canonical name) is not a supported way to obtain usable claims; only the decode itself is covered
+		}},
+		// struct-literal destinations: canonical name set, NO component container
+		{"P1Claims.UnmarshalCBOR(literal)", "cbor", func(b []byte) (any, error) {
+			c := &psatoken.P1Claims{CanonicalProfile: model.P1Name}
+			if err := c.UnmarshalCBOR(b); err != nil {
+				return nil, err
+			}
+			return psatoken.IClaims(c), nil
+		}},
+		{"P2Claims.UnmarshalCBOR(literal)", "cbor", func(b []byte) (any, error) {
+			c := &psatoken.P2Claims{CanonicalProfile: model.P2Name}
+			if err := c.UnmarshalCBOR(b); err != nil {
+				return nil, err
+			}
+			return psatoken.IClaims(c), nil
+		}},
+		{"P1Claims.UnmarshalJSON(literal)", "json", func(b []byte) (any, error) {
+			c := &psatoken.P1Claims{CanonicalProfile: model.P1Name}
+			if err := c.UnmarshalJSON(b); err != nil {
+				return nil, err
+			}
+			return psatoken.IClaims(c), nil
+		}},
+		{"P2Claims.UnmarshalJSON(literal)", "json", func(b []byte) (any, error) {
+			c := &psatoken.P2Claims{CanonicalProfile: model.P2Name}
+			if err := c.UnmarshalJSON(b); err != nil {
+				return nil, err
+			}
+			return psatoken.IClaims(c), nil
 		}},
 		{"SwComponents.UnmarshalCBOR", "cbor", func(b []byte) (any, error) {
 			c := &psatoken.SwComponents[*psatoken.SwComponent]{}
